@@ -36,10 +36,24 @@ type conn interface {
 
 // verify checks the datagram the BMC received for one call.
 func verify(w *hx.World, before int, name string, key uint16, lun byte, want map[string]uint64, sess *simbmc.Session) error {
-	if len(w.BMC.Log) != before+1 {
-		return fmt.Errorf("%s: BMC received %d datagrams, want 1", name, len(w.BMC.Log)-before)
+	return verifyN(w, before, 1, name, key, lun, want, sess)
+}
+
+// verifyN checks the n datagrams (first transmission and retransmissions) the
+// BMC received for one call: each must be the complete reference encoding.
+func verifyN(w *hx.World, before, n int, name string, key uint16, lun byte, want map[string]uint64, sess *simbmc.Session) error {
+	if len(w.BMC.Log) != before+n {
+		return fmt.Errorf("%s: BMC received %d datagrams, want %d", name, len(w.BMC.Log)-before, n)
 	}
-	rx := w.BMC.Log[before]
+	for i := 0; i < n; i++ {
+		if err := verifyOne(w, w.BMC.Log[before+i], fmt.Sprintf("%s (transmission %d of %d)", name, i+1, n), key, lun, want, sess); err != nil {
+			return err
+		}
+	}
+	return nil
+}
+
+func verifyOne(w *hx.World, rx *simbmc.Rx, name string, key uint16, lun byte, want map[string]uint64, sess *simbmc.Session) error {
 	if len(rx.Problems) > 0 {
 		return fmt.Errorf("%s: reference parse of % x reports: %v", name, rx.Raw, rx.Problems)
 	}
@@ -79,7 +93,7 @@ func verify(w *hx.World, before int, name string, key uint16, lun byte, want map
 func TestCatalogue(t *testing.T) {
 	cat := hx.Catalogue()
 	ev.Check(t, "TestCatalogue", ev.PickN(8000, 400000), func(t *rapid.T) {
-		creds := hx.Creds{User: "u", Password: []byte("p"), Priv: 4, Suite: rapid.SampledFrom(hx.Suites9()).Draw(t, "suite"), Seed: rapid.Uint64().Draw(t, "seed")}
+		creds := hx.Creds{User: "u", Password: []byte("p"), Priv: 4, Suite: rapid.SampledFrom(hx.Suites12()).Draw(t, "suite"), Seed: rapid.Uint64().Draw(t, "seed")}
 		w := hx.NewWorldFor(creds, true)
 		inside := rapid.Bool().Draw(t, "inside")
 		var c conn = w.T
@@ -395,16 +409,34 @@ func TestConnectionHistory(t *testing.T) {
 			bs *simbmc.Session
 		}
 		var sessions []live
-		opens, inCmds := 0, 0
+		opens, inCmds, retx := 0, 0, 0
+		sc := &hx.Scripter{}
 		command := func(t *rapid.T, c conn, bs *simbmc.Session) {
 			call := rapid.SampledFrom(cat).Draw(t, "command").Prepare(t, w.BMC)
+			// the first attempts are answered with something that makes the library
+			// send the request again; every transmission is checked
+			var script []hx.Outcome
+			for i := rapid.IntRange(0, 3).Draw(t, "retries"); i > 0; i-- {
+				script = append(script, rapid.SampledFrom([]hx.Outcome{hx.Busy, hx.TimeoutCC, hx.Garbage, hx.StrayOK, hx.StrayBusy, hx.BadSig}).Draw(t, "outcome"))
+			}
+			script = append(script, hx.Final)
+			sc.Script, sc.Pos = script, 0
+			sc.Install(w.BMC)
 			before := len(w.BMC.Log)
-			ctx, cancel := w.Ctx(1)
+			ctx, cancel := w.Ctx(len(script))
 			_, _ = c.SendCommand(ctx, call.Cmd)
 			cancel()
+			w.BMC.Intercept = nil
 			ev.Eval()
-			if err := verify(w, before, call.Name, call.Key, call.WantLUN, call.WantFields, bs); err != nil {
-				t.Fatalf("%v", err)
+			n := len(script)
+			if call.SerialiseFails {
+				n = 0
+			}
+			if err := verifyN(w, before, n, call.Name, call.Key, call.WantLUN, call.WantFields, bs); err != nil {
+				t.Fatalf("outcomes %s: %v", hx.ScriptString(script), err)
+			}
+			if n > 1 {
+				retx++
 			}
 		}
 		t.Repeat(map[string]func(*rapid.T){
@@ -412,7 +444,7 @@ func TestConnectionHistory(t *testing.T) {
 				if len(sessions) >= 3 {
 					t.Skip("enough sessions")
 				}
-				c := hx.GenCreds(hx.Suites9()).Draw(t, "creds")
+				c := hx.GenCreds(hx.Suites12()).Draw(t, "creds")
 				c.KG = w.BMC.KG
 				w.BMC.Users[c.User] = c.Password
 				before := len(w.BMC.Log)
@@ -428,6 +460,9 @@ func TestConnectionHistory(t *testing.T) {
 				}
 				sessions = append(sessions, live{s, w.BMC.Sessions[s.RemoteID]})
 				opens++
+				if retx > 0 {
+					ev.Label("history:retransmissions-checked")
+				}
 				if opens > 1 && inCmds > 0 {
 					ev.Label("history:reopen-after-in-session-traffic")
 					ev.NonTrivial(fmt.Sprintf("hist|%d|%d|%v|%d", opens, inCmds, c.Suite, c.Seed))
@@ -465,7 +500,7 @@ func TestConnectionHistory(t *testing.T) {
 }
 
 func TestCoverage(t *testing.T) {
-	need := []string{"history:reopen-after-in-session-traffic", "long-username-refused", "enum:cipher-suites", "enum:dcmi", "handshake:auth1", "handshake:auth2", "handshake:auth3"}
+	need := []string{"history:reopen-after-in-session-traffic", "history:retransmissions-checked", "long-username-refused", "enum:cipher-suites", "enum:dcmi", "handshake:auth1", "handshake:auth2", "handshake:auth3"}
 	for _, e := range hx.Catalogue() {
 		_ = e
 	}
